@@ -315,6 +315,10 @@ class Check:
                         known_hits[sig] = (known[sig], f)
                     else:
                         violations.append(f)
+                elif (f.get("info") or {}).get("suspicion"):
+                    # a structural suspicion (not a consequence of the property by itself): it only counts when the behavioural
+                    # replay on the real build shows a violation; otherwise it is noted in the evidence and nothing more
+                    self.extra_cov.setdefault("suspicions_not_confirmed", []).append(str(f.get("label", ""))[:200])
                 else:
                     spurious.append(f)
             if self.oracle_selftest and replay is not None and self.tier == "thorough" and not violations:
